@@ -10,9 +10,12 @@ STD_NOTE = ("Trusted: Coq 8.16.1 kernel (vm_compute used, no native_compute), th
 
 CHECKS = {}
 _here = os.path.dirname(os.path.abspath(__file__))
+# only properties listed in harness/ready.txt are claimed (the lead adds an id after reviewing and
+# running its check on the unchanged tree)
+_ready = set(open(os.path.join(_here, "ready.txt")).read().split())
 for i in range(1, 21):
     pid = f"C{i:02d}"
-    if os.path.exists(os.path.join(_here, f"{pid.lower()}.py")):
+    if pid in _ready and os.path.exists(os.path.join(_here, f"{pid.lower()}.py")):
         mod = importlib.import_module(f"harness.{pid.lower()}")
         reg = getattr(mod, "REGISTRY", None)
         if reg and reg.get("claimed", True):
